@@ -239,7 +239,11 @@ impl Cert {
     /// ground truth handed to the model as the TLS library's parameter: does the chain verify for the
     /// host name (localhost / 127.0.0.1) under the roots the client uses
     fn trusted(self, conn: Connector) -> bool {
-        self == Cert::Good && conn != Connector::Default
+        // the library's own (default) connector trusts the test CA too: `run` points OpenSSL's default verify
+        // file at it (SSL_CERT_FILE), so that the default connector's NAME check is exercised as well — with an
+        // untrusted chain every certificate fails before the name is ever looked at (seeded change C17d)
+        let _ = conn;
+        self == Cert::Good
     }
     fn identity(self) -> native_tls::Identity {
         let (c, k) = match self {
@@ -959,6 +963,12 @@ fn judge(out: &mut Out, r: &Ran) {
 }
 
 pub fn run(thorough: bool, mut rng: Rng, mut out: Out) {
+    // the default connector (`create_connector` in conn.rs, OpenSSL's default verify paths) is to trust the test CA
+    {
+        let f = std::env::temp_dir().join(format!("l3v-ca-{}.pem", std::process::id()));
+        std::fs::write(&f, CA_PEM).expect("write test CA");
+        std::env::set_var("SSL_CERT_FILE", &f);
+    }
     let mut scens = scenarios(thorough, &mut rng);
     if let Ok(only) = std::env::var("VERIF_TLS_ONLY") {
         // debugging aid: run the scenarios whose name contains the given text
